@@ -62,6 +62,12 @@ def configs(thorough: bool) -> List[Dict[str, Any]]:
             und = dict(cfg)
             und["underlay"] = True      # the external bytes under the overlays were written before the overlays were installed
             out.append(und)
+        if ovl and not rom and not mirror and not ro and card in (None, 8192):
+            tap = dict(cfg)
+            # passive descriptor overlays (no storage, no handlers; Rust only) laid over the start of the RAM overlay, the end of the
+            # card window and plain RAM: they decline every access, so nothing read or written through them may change
+            tap["taps"] = [(0x4FFF8, 0x10), (0x41FF8, 0x10), (0xB8000, 0x8)]
+            out.append(tap)
         if card and not rom and not ovl and not mirror and not ro:
             rem = dict(cfg)
             rem["card_removed"] = True       # the card is loaded and then taken out: the slot must behave as absent
@@ -139,6 +145,8 @@ def rs_cfg(cfg):
         c["ram_overlays"] = [list(x) for x in cfg["ram_overlays"]]
     if cfg.get("rom_overlays"):
         c["rom_overlays"] = [list(x) for x in cfg["rom_overlays"]]
+    if cfg.get("taps"):
+        c["taps"] = [list(x) for x in cfg["taps"]]
     ro = [list(x) for x in cfg.get("readonly", [])]
     if cfg.get("rom_image"):
         start, size = cfg["rom_image"]
@@ -245,7 +253,7 @@ def judge(impl, cfg, hist, outs, probe_vals, pr, vb: VB, pre_probe: Optional[Lis
     violation is attributed to the operation that causes it; with pre_probe=None the whole history is judged
     against the reference (used for the initial state and the load scripts)."""
     wit = lambda: {"impl": impl, "cfg": _cfg_json(cfg), "history": [list(o) for o in hist]}  # noqa: E731
-    cfgtag = "+".join(k for k in ("rom_image", "rom_len", "card", "ram_overlays", "readonly", "mirror") if cfg.get(k)) or "plain"
+    cfgtag = "+".join(k for k in ("rom_image", "rom_len", "card", "ram_overlays", "taps", "readonly", "mirror") if cfg.get(k)) or "plain"
     if cfg.get("card_writable") is False:
         cfgtag += "+card-readonly"
     if cfg.get("underlay"):
@@ -444,12 +452,12 @@ def run(ctx) -> None:
     jobs = []
     n = nproc()
     for impl in ("python", "rust"):
-        use = [c for c in cfgs if (impl == "rust" and not c.get("rom_len") and c.get("card_writable", True) and not c.get("underlay")) or (impl == "python" and not (c.get("mirror") or c.get("readonly")))]
+        use = [c for c in cfgs if (impl == "rust" and not c.get("rom_len") and c.get("card_writable", True) and not c.get("underlay")) or (impl == "python" and not (c.get("mirror") or c.get("readonly") or c.get("taps")))]
         for cs in chunks(use, n):
             jobs.append((impl, cs, evs, small if not ctx.thorough else evs[::2], depth))
     res = pmap(_shard, jobs)
     lres = pmap(_loads, [(impl, cs) for impl in ("python", "rust")
-                         for cs in chunks([c for c in cfgs if (impl == "rust" and not c.get("rom_len") and c.get("card_writable", True) and not c.get("underlay")) or (impl == "python" and not (c.get("mirror") or c.get("readonly")))], 4)])
+                         for cs in chunks([c for c in cfgs if (impl == "rust" and not c.get("rom_len") and c.get("card_writable", True) and not c.get("underlay")) or (impl == "python" and not (c.get("mirror") or c.get("readonly") or c.get("taps")))], 4)])
     ldres = pmap(_loaders, [("system_image", 0x100000), ("system_image", 0x40000), ("rom_window", 0x40000)])
     ctx.coverage["loader_entry_point_accesses"] = sum(r["n"] for r in ldres)
     for r in res + lres + ldres:
@@ -464,7 +472,7 @@ def run(ctx) -> None:
         "probed_bytes_per_state": len(probes()),
         "exhaustive": True,
         "rule": (f"per configuration (product of ROM image, card none/absent/8K/64K(+16K/32K), RAM+ROM overlay, mirror, read-only "
-                 f"range = {len(cfgs)} configs; Python gets the {len([c for c in cfgs if not (c.get('mirror') or c.get('readonly'))])} "
+                 f"range = {len(cfgs)} configs; Python gets the {len([c for c in cfgs if not (c.get('mirror') or c.get('readonly') or c.get('taps'))])} "
                  f"without mirror/read-only ranges) all store histories of length <= {depth} over {len(evs)} stores (8/16/24 bit at "
                  f"{len(PALETTE)} boundary addresses + 32-bit aliases), second level restricted to a {len(small)}-store subset in quick; "
                  f"after every history {len(probes())} probe bytes are read back and compared with the reference byte map "
@@ -485,7 +493,7 @@ def replay(ctx, w) -> Optional[str]:
             return wl[0][0]
         return None
     rb.build()
-    cfg = {k: ([tuple(x) for x in v] if k in ("ram_overlays", "rom_overlays", "readonly") else (tuple(v) if k == "rom_image" else v))
+    cfg = {k: ([tuple(x) for x in v] if k in ("ram_overlays", "rom_overlays", "readonly", "taps") else (tuple(v) if k == "rom_image" else v))
            for k, v in w["cfg"].items()}
     hist = tuple(tuple(o) for o in w["history"])
     pr = probes()
